@@ -54,8 +54,7 @@ def array (i : Iter) : Res View :=
 /-- `i.Root(dst)` with a fresh `dst`: returns (type of first element, dst). -/
 def root (pj : PJ) (i : Iter) : Res (UInt8 × Iter) :=
   if i.t != tagRoot then .error .generic
-  else if i.cur.toNat > i.lim then .error .generic
-  else if i.cur == 0 then .panic   -- `Tape[:i.cur-1]` with cur = 0
+  else if i.cur.toNat > i.lim ∨ i.cur == 0 then .error .generic
   else do
     let d : Iter := { i with addNext := 0, lim := i.cur.toNat - 1 }
     let (d', _) ← d.advanceInto pj
@@ -145,7 +144,8 @@ def View.objMap (pj : PJ) (o : View) (acc : List (Bytes × IVal)) : (fuel : Nat)
     let (o', r) ← o.nextElementBytes pj fuel
     match r with
     | none => .ok acc
-    | some (name, it, _) => do
+    | some (name, it, ty) =>
+      if ty == typeNone then .ok acc else do   -- `if t == TypeNone { break }`
       let v ← Iter.interface pj it fuel
       View.objMap pj o' (mapInsert acc name v) fuel
 end
@@ -165,7 +165,9 @@ def parse (pj : PJ) (o : View) (acc : Array Elem) : (fuel : Nat) → Res (Array 
     let (o', r) ← o.nextElementBytes pj fuel
     match r with
     | none => .ok acc
-    | some (name, it, ty) => parse pj o' (acc.push { name := name, type := ty, iter := it }) fuel
+    | some (name, it, ty) =>
+      if ty == typeNone then .ok acc   -- `if t == TypeNone { break }`
+      else parse pj o' (acc.push { name := name, type := ty, iter := it }) fuel
 
 /-- `o.FindKey(key, dst)`: `none` = nil. -/
 def findKey (pj : PJ) (key : Bytes) (tmp : Iter) : (fuel : Nat) → Res (Option (UInt8 × Iter))
